@@ -67,12 +67,19 @@ class DurationObserver(FeatureObserver):
         self.features[FeatureType.OPERATIONS] = operation_durations
 
     def _initialize_machine_durations(self):
-        machine_durations = self.dispatcher.instance.machine_loads
+        # Only unscheduled operations count: the observer may be created
+        # after some operations have already been dispatched.
+        machine_durations = [0] * self.dispatcher.instance.num_machines
+        for operation in self.dispatcher.unscheduled_operations():
+            for machine_id in operation.machines:
+                machine_durations[machine_id] += operation.duration
         for machine_id, machine_load in enumerate(machine_durations):
             self.features[FeatureType.MACHINES][machine_id, 0] = machine_load
 
     def _initialize_job_durations(self):
-        job_durations = self.dispatcher.instance.job_durations
+        job_durations = [0] * self.dispatcher.instance.num_jobs
+        for operation in self.dispatcher.unscheduled_operations():
+            job_durations[operation.job_id] += operation.duration
         for job_id, job_duration in enumerate(job_durations):
             self.features[FeatureType.JOBS][job_id, 0] = job_duration
 
